@@ -226,6 +226,7 @@ class Contract:
     effects: list = field(default_factory=list)      # caller-side ghost effects ("append:errors", ...)
     variant: str = ""
     track_log: bool = False
+    drift: list = field(default_factory=list)        # assumed-contract keys (SQL text ...): failing => undecided
     pop_guard: bool = False
     ctx_facts: list = field(default_factory=list)
 
@@ -245,6 +246,7 @@ class Registry:
         self.effectful: set[str] = set()    # simple names of package functions that may reach writers
         self.callback_contracts: dict[str, dict] = {}
         self.may_log_names: set | None = None   # simple names that may reach a message recorder
+        self.db_names: set | None = None        # simple names that may reach the database / memo
 
     def add(self, c: Contract):
         self.by_target[c.target + ("#" + c.variant if c.variant else "")] = c
@@ -253,7 +255,8 @@ class Registry:
     def bind(self):
         for c in self.by_target.values():
             mod, node = loader.find(c.target)
-            if not c.variant or id(node) not in self.by_node:
+            cur = self.by_node.get(id(node))
+            if c.variant == "callee" or cur is None or (cur.variant and cur.variant != "callee" and not c.variant):
                 self.by_node[id(node)] = c
             c._mod, c._node = mod, node     # type: ignore[attr-defined]
 
@@ -739,6 +742,11 @@ class X:
 
     def ev_Call(self, e, st, chain):
         from . import models
+        if isinstance(e.func, ast.Name) and e.func.id == "implies" and self.in_clause and len(e.args) == 2:
+            # lazy implication: the consequent is only evaluated where the antecedent holds
+            return self.bind(self.ev(e.args[0], st, chain),
+                             lambda s, a: self.branch(s, a, lambda s2: self.ev(e.args[1], s2, chain),
+                                                      lambda s2: [(s2, vbool(True))]))
         if isinstance(e.func, ast.Name) and e.func.id == "old" and self.in_clause:
             # old(expr): evaluate against the entry snapshot's ghost state
             cur = st.ghost
@@ -840,6 +848,8 @@ class X:
                 if v0.t[0] == v1.t[0] and len(v0.t[1]) == len(v1.t[1]):
                     continue
                 # message lists may grow inside loops: allowed (abstracted below)
+            elif v0.k in ("sqllog", "bool") or name.startswith("field:"):
+                continue    # SQL log / memo flag / plain fields: handled by loop havoc, not by this invariant
             else:
                 self.oblige("inv-keep", f"{what}: {name} unchanged @ {loader.norm(node)[:80]}", st,
                             z3.BoolVal(False))
@@ -1501,6 +1511,15 @@ class X:
         self.infer_havoc_kinds(s_, st, chain, names, s_.body)
         head = st.fork()
         self.havoc(head, chain, names, mutated, s_)
+        if self._loop_may_log(s_.body) or any(isinstance(n, ast.Call) for b in s_.body for n in ast.walk(b)):
+            # the body may run SQL / clear the memo: both are unknown at the loop head
+            # unless the sidecar invariant pins the memo flag
+            if "memo_valid" in head.ghost and not (spec and "memo_valid" in spec.get("havoc_ghost", [])):
+                if self._body_touches_db(s_.body):
+                    head.ghost["memo_valid"] = V("bool", z3.Bool(fresh_name("hv_memo")))
+                    lg = head.ghost.get("sql_log")
+                    if lg is not None:
+                        head.ghost["sql_log"] = V("sqllog", lg.t + (("loop", "<loop>", None, V("tuple", ())),))
         if spec and (spec.get("havoc_ghost") or spec.get("invariant")):
             self._apply_loop_invariant(s_, st, head, chain, spec, fp)
         # variables that are Optional[scalar] across iterations: one head state
@@ -1575,6 +1594,19 @@ class X:
                 results.append((es, ("fall",)))
         return results
 
+    def _body_touches_db(self, body) -> bool:
+        names = getattr(self.reg, "db_names", None)
+        for b in body:
+            for n in ast.walk(b):
+                if isinstance(n, ast.Attribute) and n.attr in ("db_conn", "cache_clear"):
+                    return True
+                if isinstance(n, ast.Call):
+                    f = n.func
+                    nm = f.id if isinstance(f, ast.Name) else (f.attr if isinstance(f, ast.Attribute) else None)
+                    if names is None or nm is None or nm in names:
+                        return True
+        return False
+
     def _loop_may_log(self, body) -> bool:
         names = self.reg.may_log_names
         for n in ast.walk(ast.Module(body=list(body), type_ignores=[])):
@@ -1592,7 +1624,10 @@ class X:
         checked on the entry state (inv-init) and assumed on the head state"""
         self._check_loop_invariant(s_, entry, chain, spec, fp, "inv-init")
         for gname in spec.get("havoc_ghost", []):
-            head.ghost[gname] = V("sseq", z3.Const(fresh_name("hv_" + gname), SeqS))
+            if gname == "memo_valid":
+                head.ghost[gname] = V("bool", z3.Bool(fresh_name("hv_memo")))
+            else:
+                head.ghost[gname] = V("sseq", z3.Const(fresh_name("hv_" + gname), SeqS))
         for cl in spec.get("invariant", []):
             for s2, v in self.eval_clause(cl, head, chain):
                 if v.k != "raise":
@@ -1659,6 +1694,7 @@ class X:
             st.scopes[sid][a.kwarg.arg] = vopq("kwargs")
         models.init_ghost(self, st)
         chain = (sid, outer)
+        self.entry_params = dict(st.scopes[sid])
         for cl in self.c.requires:
             for s2, v in self.eval_clause(cl, st, chain):
                 if v.k == "raise":
@@ -1710,10 +1746,13 @@ class X:
                             detail=f"returned kind {result.k}")
         for cl in self.c.ensures:
             self._oblige_clause("post@return", cl, s, chain, result, entry, site, node)
+        for cl in self.c.drift:
+            self._oblige_clause("drift", cl, s, chain, result, entry, site, node)
 
     def _oblige_clause(self, kind, cl, s, chain, result, entry, site, node):
         s1 = s.fork()
-        env = {"result": result if result is not None else NONE}
+        env = dict(getattr(self, "entry_params", {}))     # parameter names denote entry values
+        env["result"] = result if result is not None else NONE
         for nm, src in self.c.lets.items():
             rs = self.eval_clause(src, s1, chain, env)
             if len(rs) == 1 and rs[0][1].k != "raise":
